@@ -55,7 +55,8 @@ where
         if let Some(enumeration) = &self.enumeration {
             writeln!(writer, "   enumeration: Some(vec![")?;
             for value in enumeration {
-                writeln!(writer, "      \"{value}\".to_string(),")?;
+                // written as an escaped string literal: the value is data, whatever characters it holds
+                writeln!(writer, "      {value:?}.to_string(),")?;
             }
             writeln!(writer, "   ]),")?;
         }
